@@ -96,7 +96,9 @@ def _gen_request(rnd, rid, world, cer_template, universe, fc_owner_pool):
         depth=rnd.choice([0, 1, 2]),
         p_pool=0.15,
         free_pool=[free_expr_factory()],
-        free_inputs=lambda r, disc: r.choice([f"txt-{rid}-{disc}"] * 5 + [None, ""]),
+        free_inputs=lambda r, disc: r.choice(
+            [f"txt-{rid}-{disc}"] * 5 + [None, "", f"  padded {rid}-{disc} ", f"{disc}\tx", f"LONG-{rid}-{disc}-" + "9" * 40]
+        ),
         n_segments=(1, 3),
         n_des=(1, 4),
         fanout=(0, 2),
